@@ -7,7 +7,11 @@ GM2_slha_io::fill_slha() / examples/example-slha.cpp do (physical MCha, MChi, MS
 the pole mixing matrices NMIX/SMUMIX) together with initial guesses for (mu, M1, M2, ml2(2,2), me2(2,2))
 perturbed by {-5%, 0, +5%}^5, and convert_to_onshell(p, 1000) is run for p in {1e-10, 1e-8, 1e-6, 1e-4}.  A third
 variant moves the left-like smuon pole mass by 1% (away from the right-like one) so that the input is no longer a
-tree-level spectrum: the scheme does not use that mass, so all clauses must hold unchanged.
+tree-level spectrum: the scheme does not use that mass, so all clauses must hold unchanged.  Every 5th perturbation
+is additionally built, converted and read back exclusively through the C interface (MSSMNoFV_onshell.h: new, setters
+incl. the *_pole setters, gm2calc_mssmnofv_convert_to_onshell_params(precision, 1000) for every precision goal and the
+default entry point gm2calc_mssmnofv_convert_to_onshell, getters, have_warning, free): same oracle, and the result must
+be bitwise the one of the C++ conversion of the same case.
 
 Oracle (harness/mssm_ref.cpp only dumps getters, all decisions are taken here): unless have_warning()
  (i)   both chargino masses reproduce the generating ones within p,
@@ -93,10 +97,18 @@ def gen_points(quick):
     return out
 
 
-def cmd_for(pt, modes, precs, perts):
+CSTEP = 5          # C-interface variants: every 5th perturbation (offset rotates with the generating point)
+MODE_NAME = ("without NMIX/SMUMIX", "with NMIX/SMUMIX", "with NMIX/SMUMIX (left-like smuon pole mass shifted 1%)",
+             "through the C interface, gm2calc_mssmnofv_convert_to_onshell_params(precision, 1000), without NMIX/SMUMIX",
+             "through the C interface, gm2calc_mssmnofv_convert_to_onshell() [defaults 1e-8, 1000], without NMIX/SMUMIX")
+MODE_TAG = ("noNMIX", "NMIX", "NMIX+shiftedL", "C-api:params", "C-api:default")
+
+
+def cmd_for(pt, modes, precs, perts, coff=0):
     tb, mu, M1, M2, ml, mr, _ = pt
-    return "C %s %d %d %s %d %s" % (" ".join(hexf(v) for v in (tb, mu, M1, M2, ml, mr, 0.0)), modes, len(precs),
-                                    " ".join(hexf(p) for p in precs), len(perts), " ".join(str(p) for p in perts))
+    return "C %s %d %d %s %d %s %d %d" % (" ".join(hexf(v) for v in (tb, mu, M1, M2, ml, mr, 0.0)), modes, len(precs),
+                                          " ".join(hexf(p) for p in precs), len(perts), " ".join(str(p) for p in perts),
+                                          CSTEP, coff)
 
 
 def parse_spec(tk):
@@ -171,11 +183,26 @@ def evaluate(pt, glines):
     gaug_ok, smu_ok = conditioning(g)
     wellcond = gaug_ok and smu_ok
     worst = {}
+    cpp = {}
     for ln in glines[1:]:
         tk = ln.split()
         mode, prec, pert = int(tk[1]), unhex(tk[2]), int(tk[3])
         ptag = "p=%.0e" % prec
         add("conversions")
+        if mode == 0:
+            cpp[(tk[2], pert)] = tk[4:]
+        elif mode >= 3:
+            # the C entry points must give exactly what the C++ conversion of the same case gives
+            add("c_api_conversions")
+            ref = cpp.get((tk[2], pert))
+            if ref is not None and ref != tk[4:]:
+                k = next((i for i, (x, y) in enumerate(zip(ref, tk[4:])) if x != y), min(len(ref), len(tk) - 4))
+                fails.append(("c-api-differs-from-c++:%s" % MODE_TAG[mode],
+                              "result of the conversion through the C interface differs from the C++ conversion of the same case "
+                              "(first differing column %d: C++ %s, C %s)" % (k, ref[k] if k < len(ref) else "-", tk[4 + k] if 4 + k < len(tk) else "-"),
+                              mode, prec, pert))
+            elif ref is not None:
+                add("c_api_bitwise_equal_to_c++")
         if tk[4] != "OK":
             add("conv_exception:" + " ".join(tk[5:7]))
             keys.add(("exc", gn, sn, tk[5]))
@@ -206,10 +233,10 @@ def evaluate(pt, glines):
         # (ii) bino-like neutralino
         bm = bino_index(m)
         dbino = abs(m["chi"][bm] - g["chi"][bg])
-        if mode >= 1 or gaug_ok:
+        if mode in (1, 2) or gaug_ok:
             worst["bino"] = max(worst.get("bino", 0.0), dbino / prec)
             if not dbino <= prec:
-                fails.append(("bino:%s:%s:%s" % (("noNMIX", "NMIX", "NMIX+shiftedL")[mode], gn, ptag),
+                fails.append(("bino:%s:%s:%s" % (MODE_TAG[mode], gn, ptag),
                               "bino-like neutralino (index %d) mass %.12g vs generating bino-like (index %d) %.12g: |diff| %.3e > p=%g, no warning"
                               % (bm, m["chi"][bm], bg, g["chi"][bg], dbino, prec)) + data)
                 bad = True
@@ -257,7 +284,7 @@ def evaluate(pt, glines):
                 how = "root-finder" if "r" in path else "fpi"
                 if mpre is not None and abs(mpre - other) <= prec + round_:
                     add("smuonR_on_left_like_pole_mass:%s:%s:mode%d" % (how, sn, mode))
-                    fails.append(("smuonR:%s-matches-left-like-pole-mass:%s:%s" % (how, sn, ("tree-level-spectrum", "tree-level-spectrum", "shiftedL")[mode]),
+                    fails.append(("smuonR:%s-matches-left-like-pole-mass:%s:%s" % (how, sn, ("shiftedL" if mode == 2 else "tree-level-spectrum")),
                                   "the fitted right-like smuon (index %d, |U_R| %.3f, mass %.10g) sits on the LEFT-like input pole mass %.10g "
                                   "instead of the right-like one %.10g (|diff| %.3e GeV), achieved precision reported as fine, no warning; "
                                   "input smuon pole masses %r, path '%s'"
@@ -296,8 +323,8 @@ def evaluate(pt, glines):
 
 
 def _work(job):
-    pt, modes, precs, perts = job
-    line = cmd_for(pt, modes, precs, perts)
+    pt, modes, precs, perts, coff = job
+    line = cmd_for(pt, modes, precs, perts, coff)
     p = subprocess.run([_EXE], input=line + "\n", stdout=subprocess.PIPE, stderr=subprocess.PIPE, text=True, timeout=1200)
     if p.returncode != 0:
         return ("infra", "harness exit %d on %s: %s" % (p.returncode, line[:200], p.stderr[-300:]))
@@ -320,7 +347,7 @@ def run(ctx):
     pts = gen_points(ctx.quick)
     precs = [1e-10, 1e-8, 1e-4] if ctx.quick else PRECS
     perts = list(range(243))
-    jobs = [(pt, 7, precs, perts) for pt in pts]
+    jobs = [(pt, 31, precs, perts, n % CSTEP) for n, pt in enumerate(pts)]
     total, worst, worst_at = {}, {}, {}
     nfail = 0
     stop = False
@@ -341,8 +368,8 @@ def run(ctx):
                 ctx.nontrivial(k)
             for key, what, mode, prec, pert in fails:
                 nfail += 1
-                ctx.fail(key, "%s [tb=%g mu=%g M1=%g M2=%g mL=%g mR=%g, %s NMIX/SMUMIX, p=%g, perturbation %s]"
-                         % (what, pt[0], pt[1], pt[2], pt[3], pt[4], pt[5], ("without", "with", "with (left-like smuon pole mass shifted 1%)")[mode], prec,
+                ctx.fail(key, "%s [tb=%g mu=%g M1=%g M2=%g mL=%g mR=%g, %s, p=%g, perturbation %s]"
+                         % (what, pt[0], pt[1], pt[2], pt[3], pt[4], pt[5], MODE_NAME[mode], prec,
                             pert_name(pert)),
                          {"point": list(pt[:6]) + [list(pt[6])], "mode": mode, "prec": hexf(prec), "pert": pert})
             if ctx.out_of_time("conversions"):
@@ -355,6 +382,8 @@ def run(ctx):
     print("[C05] generating points %d (ok %d), conversions %d: checked %d, warned %d, exceptions %d"
           % (len(pts), total.get("gen_ok", 0), conv, checked, warned,
              sum(v for k, v in total.items() if k.startswith("conv_exception"))))
+    print("[C05] C interface: %d conversions (every %dth perturbation, both entry points), %d bitwise equal to the C++ conversion"
+          % (total.get("c_api_conversions", 0), CSTEP, total.get("c_api_bitwise_equal_to_c++", 0)))
     print("[C05] paths %s" % {k[5:]: v for k, v in sorted(total.items()) if k.startswith("path:")})
     print("[C05] right-like smuon: within p %d, off by more than p but fitted with the pre-fit Yukawa %s"
           % (total.get("smuonR_within_p", 0), {k[21:]: v for k, v in sorted(total.items()) if k.startswith("smuonR_yukawa_update_")}))
@@ -380,7 +409,7 @@ def run(ctx):
         "without NMIX and with non-separated gaugino parameters only the self-consistent bino clause is required"]
     return ctx.finish(
         "generating points: tan beta %s x 8 sign patterns x (gaugino row, smuon row) combinations; per point %d initial-guess "
-        "perturbations x precisions %s x {without, with, with + left-like smuon pole mass shifted} pole mixing matrices; distinct = (outcome, mode, precision, gaugino row, "
+        "perturbations x precisions %s x {without, with, with + left-like smuon pole mass shifted} pole mixing matrices + every 5th perturbation through both C entry points; distinct = (outcome, mode, precision, gaugino row, "
         "smuon row, sign pattern, tan beta, iteration path letters, bino index, right-smuon index, me2-guess digit)"
         % ([2, 10, 60] if ctx.quick else TBS, len(perts), precs),
         {"generating_points": len(pts), "conversions": conv, "checked_no_warning": checked, "warned": warned,
@@ -400,7 +429,8 @@ def replay(ctx, path):
     _EXE = build.harness("mssm_ref", "plain", ["mssm_ref.cpp"])
     d = json.load(open(path))["data"]
     pt = tuple(d["point"][:6]) + (tuple(d["point"][6]),)
-    res = _work((pt, 1 << d["mode"], [unhex(d["prec"])], [d["pert"]]))
+    # C-interface cases are compared with the C++ conversion of the same case: run mode 0 along
+    res = _work((pt, (1 << d["mode"]) | (1 if d["mode"] >= 3 else 0), [unhex(d["prec"])], [d["pert"]], d["pert"] % CSTEP))
     if res[0] == "infra":
         raise InfraError(res[1])
     fails = res[3]
